@@ -12,7 +12,8 @@
 (* must be what the specification computes; the invariants O1..O5 of       *)
 (* Ownership.tla are evaluated by TLC in every state of the trace.         *)
 (*                                                                         *)
-(* Events: reset | end | new | clone | slice | wrap | wrapn | drop | drop_many   *)
+(* Events: reset | end | new | newn (array of a nested type) | clone |     *)
+(* slice | wrap | wrapn | drop | drop_many                                 *)
 (* (handles dropped concurrently by several real threads; logged after the *)
 (* join) | into_mutable | into_vec | unary_mut | into_builder |            *)
 (* try_unary_mut | try_unary_mut_err | xor | claim | export | import |      *)
@@ -35,6 +36,7 @@ ArrayOps == {"unary_mut", "into_builder", "try_unary_mut"}
 (* state after the call, given what the call reported (ok / same / res)      *)
 After(ev) ==
   CASE ev.op = "new"     -> New(st, ev.r, ev.kind, ev.bits, ev.mem, ev.size, ev.x)
+    [] ev.op = "newn"    -> NewNested(st, ev.rs, ev.x, ev.rows)
     [] ev.op = "clone"   -> Clone(st, ev.x, ev.y)
     [] ev.op = "slice"   -> Slice(st, ev.x, ev.y, ev.o, ev.n)
     [] ev.op = "wrap"    -> Wrap(st, ev.x, ev.y)
@@ -56,6 +58,8 @@ After(ev) ==
 (* the call is one the specification offers in this state                    *)
 Enabled(ev) ==
   CASE ev.op = "new"     -> FreshRegion(st, ev.r) /\ FreshHandle(st, ev.x)
+    [] ev.op = "newn"    -> /\ FreshHandle(st, ev.x) /\ Len(ev.rs) \in 1..MaxRefs
+                            /\ \A i \in 1..Len(ev.rs) : FreshRegion(st, ev.rs[i]) /\ \A j \in 1..(i - 1) : ev.rs[j] # ev.rs[i]
     [] ev.op = "clone"   -> ev.x \in Live(st.hd) /\ st.hd[ev.x].kind \in {"buffer", "array"} /\ FreshHandle(st, ev.y)
     [] ev.op = "slice"   -> ev.x \in Live(st.hd) /\ FreshHandle(st, ev.y) /\ CanSlice(st, ev.x, ev.o, ev.n)
     [] ev.op = "wrap"    -> ev.x \in Live(st.hd) /\ FreshHandle(st, ev.y) /\ CanWrap(st, ev.x)
@@ -64,9 +68,9 @@ Enabled(ev) ==
     [] ev.op = "drop_many" -> \A i \in 1..Len(ev.xs) : ev.xs[i] \in Live(st.hd)
     [] ev.op \in {"into_mutable", "into_vec", "xor"} -> ev.x \in Live(st.hd) /\ st.hd[ev.x].kind = "buffer"
     [] ev.op \in ArrayOps \cup {"try_unary_mut_err"} ->
-         /\ ev.x \in Live(st.hd) /\ st.hd[ev.x].kind = "array"
+         /\ ev.x \in Live(st.hd) /\ st.hd[ev.x].kind = "array" /\ ~st.hd[ev.x].nested
          /\ ((~ev.ok /\ NeedsNullCopy(st, ev.x)) => FreshRegion(st, ev.nr))
-    [] ev.op = "claim"   -> ev.x \in Live(st.hd) /\ st.hd[ev.x].kind \in {"buffer", "array"}
+    [] ev.op = "claim"   -> ev.x \in Live(st.hd) /\ st.hd[ev.x].kind \in {"buffer", "array"} /\ ~st.hd[ev.x].nested
     [] ev.op = "export"  -> /\ ev.x \in Live(st.hd) /\ st.hd[ev.x].kind = "array" /\ CanExport(st, ev.x)
                             /\ FreshHandle(st, ev.e) /\ FreshRegion(st, ev.nr)
     [] ev.op = "import"  -> ev.e \in Live(st.hd) /\ CanImport(st, ev.e)
@@ -92,8 +96,12 @@ RuleOK(ev) ==
 
 (* observations after the call                                               *)
 Opaque == {"export", "stream", "drained"}       \* C structs: nothing to look at but their release counts
-RefCounts(S, h) == IF h.kind \in Opaque THEN <<>> ELSE [i \in 1..Len(h.refs) |-> RC(S, h.refs[i])]
-Shows(S, h)     == IF h.kind \in Opaque THEN <<>> ELSE View(S.rg, h)
+(* nested arrays share their children through Arc<dyn Array>, so buffer     *)
+(* strong counts say nothing about them: they are judged by what they show  *)
+(* (`nviews`, the logical rows) and by the release counters of their regions *)
+RefCounts(S, h) == IF h.kind \in Opaque \/ h.nested THEN <<>> ELSE [i \in 1..Len(h.refs) |-> RC(S, h.refs[i])]
+Shows(S, h)     == IF h.kind \in Opaque \/ h.nested THEN <<>> ELSE View(S.rg, h)
+ShowsRows(S, h) == IF h.kind \notin Opaque /\ h.nested THEN View(S.rg, h) ELSE <<>>
 ShowsValid(S, h) == IF h.kind \in Opaque THEN <<>> ELSE VView(S.rg, h)
 
 ObsOK(ev, S) ==
@@ -101,6 +109,7 @@ ObsOK(ev, S) ==
   /\ J(\A i \in 1..Len(ev.hs) : ev.hs[i] \in Live(S.hd) => ev.rcs[i] = RefCounts(S, S.hd[ev.hs[i]]), <<ev.op, "strong counts">>)
   /\ J(\A i \in 1..Len(ev.hs) : ev.hs[i] \in Live(S.hd) => ev.views[i] = Shows(S, S.hd[ev.hs[i]]), <<ev.op, "visible values">>)
   /\ J(\A i \in 1..Len(ev.hs) : ev.hs[i] \in Live(S.hd) => ev.vviews[i] = ShowsValid(S, S.hd[ev.hs[i]]), <<ev.op, "visible validity">>)
+  /\ J(\A i \in 1..Len(ev.hs) : ev.hs[i] \in Live(S.hd) => ev.nviews[i] = ShowsRows(S, S.hd[ev.hs[i]]), <<ev.op, "visible rows">>)
   /\ J(\A j \in 1..Len(ev.relr) : ev.relc[j] = S.rg[ev.relr[j]].released, <<ev.op, "owner release count">>)
   /\ J(\A j \in 1..Len(ev.strel) : ev.strel[j] <= 1, <<ev.op, "stream released twice">>)
 
